@@ -184,8 +184,8 @@ def run(r):
                           "(well-escaped: same value; ill-escaped: both panic)", not mm, "%d mismatches of %d" % (len(mm), len(ft["cases"]))))
     # dynamic support
     # quick: every fixed adversarial file + every Go package variant once (≈ 190 runs, two thirds of which stop in the
-    # front end within milliseconds) + 25 random mutations; thorough: + 4000 random cases and the two budgeted witnesses K6/K7
-    n = 25 if r.tier == "quick" else 4000
+    # front end within milliseconds) + 25 random mutations; thorough: + 2000 random cases and the two budgeted witnesses K6/K7
+    n = 25 if r.tier == "quick" else 2000
     res, hits, whits = dynamic(r, n)
     found = report_dynamic(r, hits, whits, len(res["cases"]), res["witnesses_run"])
     if mm and not found:
